@@ -3,10 +3,15 @@ from __future__ import annotations
 
 import ast
 import copy
+import json
+import os
 import random
+import re
+import subprocess
+import sys
 
 from .. import probes, refselector, selgen
-from ..core import subseed
+from ..core import VERIF_DIR, subseed
 from ..refselector import Undefined, Unsupported, classify_support
 
 ID = "C07"
@@ -34,7 +39,14 @@ RULE = (
     "and dotless i, titlecase digraph).  Part 1f: multi-clause generators whose later iterables are generator "
     "expressions, decided at outer index >= 1.  Part 1g (enumerated): every proper prefix of a whitelisted type path not "
     "ending at a component boundary and one-character extensions of the paths, as bare / dotted name in value, call and "
-    "attribute position: both engines must reject (a dotted one may also be treated as a missing attribute).  A case is non-trivial when the reference evaluator defines it (every "
+    "attribute position: both engines must reject (a dotted one may also be treated as a missing attribute).  Part 1h: "
+    "texts that ast.parse(mode='eval') rejects but that parse inside a wrapper (parentheses, list, call, newline joins, "
+    "unbalanced parentheses, bare generator bodies): both engines must raise.  Part 1i: helper calls with multi-field "
+    "lists (a matching field and fields whose value makes the helper raise, both orders, duplicates) evaluated in child "
+    "interpreters under PYTHONHASHSEED 0,1,2,3,5,11: outcome == the documented loop (listed order, first match wins).  "
+    "Part 1j: every whitelisted constructor / namespace in a cold child interpreter (only flow.record.selector and "
+    "RecordDescriptor imported, plain fields), compiled before interpreted and the other way round: outcome == the warm "
+    "in-process outcome, and == the reference for net.*.  A case is non-trivial when the reference evaluator defines it (every "
     "sub-expression evaluated eagerly without error) and it reads at least one field; distinct = distinct (expression, "
     "pool seed, record index).  Oracle: an independent AST walker giving every node its Python meaning "
     "(verif/refselector.py), itself cross-checked against builtin eval on every defined case without a typed matcher. "
@@ -47,6 +59,9 @@ ASSUMPTIONS = [
     "identity comparisons are generated only against None / True / False",
     "get_type() and fields() return implementation objects and are not given a reference value (skipped)",
     "the support classification (must-support vs may-reject) is the one of DESIGN 3.4, taken from the property text",
+    "re-use of a loop variable name that is still bound - also by a sibling generator expression that is still being consumed as the iterable of an earlier for clause - is may-reject and not generated as must-support",
+    "field_equals / field_contains / field_regex visit the listed fields in the listed order and stop at the first match (the loop of their documentation); a value on which the helper's own operation raises makes the call raise when it is reached",
+    "text that builtin ast.parse(text, mode='eval') rejects is outside the language whatever wrapper would make it parse",
 ]
 SHARDS = {"quick": 8, "thorough": 16}
 BUDGET_S = {"quick": 150, "thorough": 900}
@@ -388,6 +403,23 @@ def generate(ctx):
                 yield {"k": "near-miss", "kind": "dotted" if dotted else "bare", "expr": expr, "name": name, "tags": [], "pool": pool_seeds[0],
                        "rec": idx % 6}
             idx += 1
+    # part 1h: text that is not an expression on its own (but would be inside some wrapper) must be rejected
+    for text in reject_texts(ctx.seed):
+        if ctx.mine(idx):
+            yield {"k": "reject", "kind": "not-an-expression", "expr": text, "tags": [], "pool": pool_seeds[0], "rec": idx % 6}
+        idx += 1
+    # part 1i: helper field lists in child interpreters under several PYTHONHASHSEED values
+    for ps in pool_seeds[:ctx.scale(1, 3)]:
+        for h in HASH_SEEDS:
+            if ctx.mine(idx):
+                yield {"k": "hashseed", "kind": "helper-field-order", "expr": "<batch of helper calls with multi-field lists>", "tags": [],
+                       "pool": ps, "hashseed": h}
+            idx += 1
+    # part 1j: every whitelisted constructor / namespace in a cold child interpreter, one engine before the other
+    for order in (["compiled", "interpreted"], ["interpreted", "compiled"]):
+        if ctx.mine(idx):
+            yield {"k": "cold", "kind": "cold-process", "expr": "<batch of whitelisted constructors>", "tags": [], "order": order}
+        idx += 1
     # part 2: random expressions, deeper
     n = ctx.scale(450, 14000)
     depths = [0, 1, 2, 2, 3, 3] if ctx.quick else [1, 2, 3, 3, 4, 4, 5, 6]
@@ -466,6 +498,205 @@ def genexp_iterable_exprs(rec):
             "any(n == m for n in r.nl for m in (k for k in [1000, %d]) if n >= 0)" % a,
         ]
     return out
+
+
+HASH_SEEDS = ("0", "1", "2", "3", "5", "11")
+CTOR_ARGS = {
+    "boolean": "True", "command": "'ls -l'", "dynamic": "1", "datetime": "'2020-01-01T00:00:00'", "filesize": "5", "uint16": "5", "uint32": "5",
+    "float": "1.5", "string": "'x'", "stringlist": "['a']", "dictlist": "[]", "unix_file_mode": "420", "varint": "5", "wstring": "'x'",
+    "net.ipv4.Address": "'10.1.2.3'", "net.ipv4.Subnet": "'10.0.0.0/8'", "net.tcp.Port": "80", "net.udp.Port": "80", "uri": "'http://x/y'",
+    "digest": "(None, None, None)", "bytes": "b'x'", "net.ipaddress": "'10.1.2.3'", "net.ipnetwork": "'10.0.0.0/8'",
+    "net.IPAddress": "'10.1.2.3'", "net.IPNetwork": "'10.0.0.0/8'", "path": "'/a/b'",
+}
+
+
+def run_child(ctx, job, hashseed="0", timeout=180):
+    """Run verif.child_c07 in a fresh interpreter; -> decoded output or None (then the run is inconclusive, never 'held')."""
+    env = dict(os.environ)
+    env["PYTHONHASHSEED"] = hashseed
+    env["PYTHONPATH"] = VERIF_DIR + (os.pathsep + env["PYTHONPATH"] if env.get("PYTHONPATH") else "")
+    try:
+        p = subprocess.run([sys.executable, "-W", "ignore", "-m", "verif.child_c07"], input=json.dumps(job), capture_output=True, text=True,
+                           timeout=timeout, env=env, cwd=VERIF_DIR)
+    except subprocess.TimeoutExpired:
+        ctx.require(False, "child interpreter exceeded %d s" % timeout)
+        return None
+    if p.returncode != 0:
+        ctx.require(False, "child interpreter failed: %s" % p.stderr[-400:])
+        return None
+    ctx.event("child interpreters")
+    return json.loads(p.stdout)
+
+
+def helper_model(rec, helper, fields, arg, nocase=True):
+    """The documented loop of field_equals / field_contains / field_regex: listed order, skip fields the record lacks,
+    stop at the first match.  -> ('V', bool) or ('E',) when the helper's own operation raises on a value it reaches."""
+    try:
+        for f in fields:
+            if f not in rec._desc.get_all_fields():
+                continue
+            v = getattr(rec, f)
+            if helper == "field_regex":
+                if re.search(arg, v) is not None:
+                    return ("V", True)
+                continue
+            strings = [refselector.h_lower(x) for x in arg] if nocase else arg
+            vv = refselector.h_lower(v) if nocase else v
+            for x in strings:
+                if (x == vv) if helper == "field_equals" else (x in vv):
+                    return ("V", True)
+        return ("V", False)
+    except Exception:  # noqa: BLE001
+        return ("E",)
+
+
+def helper_order_cases(pool):
+    """-> [(record index, expression, expected)]: multi-field lists in which one listed field matches and another holds
+    a value the helper raises on (None, an integer, a float), in both orders, with duplicates and with longer lists."""
+    out = []
+    for ri in range(0, 10):
+        rec = pool[ri]
+        texts = [f for f in ("s", "t", "w") if isinstance(getattr(rec, f), str) and getattr(rec, f)]
+        bad = [f for f in ("s", "t", "w", "_source", "_classification") if getattr(rec, f) is None][:2]
+        bad += [f for f in ("n", "u16", "f", "port") if getattr(rec, f) is not None][:3]
+        for a in texts[:2]:
+            val = str(getattr(rec, a))
+            lists = []
+            for b in bad:
+                lists += [[a, b], [b, a], [a, a, b], [a, "zz", b]]
+            lists += [[a] + bad, bad + [a], [a] + bad + ["nope", "zz", a], ["zz"] + [a] + bad[::-1] + ["l"]]
+            for fl in lists:
+                for helper, arg, kw, src in (
+                    ("field_contains", [val], {}, "field_contains(r, %r, %r)" % (fl, [val])),
+                    ("field_contains", [val[:2]], {"nocase": False}, "field_contains(r, %r, %r, nocase=False)" % (fl, [val[:2]])),
+                    ("field_regex", re.escape(val), {}, "field_regex(r, %r, %r)" % (fl, re.escape(val))),
+                    ("field_equals", [val.upper(), "zz"], {}, "field_equals(r, %r, %r)" % (fl, [val.upper(), "zz"])),
+                    ("field_regex", "no-such-text", {}, "field_regex(r, %r, 'no-such-text')" % (fl,)),
+                ):
+                    out.append((ri, src, helper_model(rec, helper, fl, arg, **kw)))
+    return out
+
+
+def exec_hashseed(ctx, case):
+    pool = pool_for(ctx, case["pool"])
+    cases = helper_order_cases(pool)
+    res = run_child(ctx, {"mode": "helpers", "pool": case["pool"], "cases": [[ri, e] for ri, e, _ in cases]}, hashseed=case["hashseed"])
+    if res is None:
+        return
+    ctx.cell("hashseed", case["hashseed"])
+    for (ri, expr, want), (ri2, expr2, got_i, got_c) in zip(cases, res["results"]):
+        assert (ri, expr) == (ri2, expr2)
+        for engine, got in (("interpreted", got_i), ("compiled", got_c)):
+            ctx.ev()
+            ctx.event("hashseed evaluations")
+            ctx.event("hashseed expected:" + ("raise" if want[0] == "E" else str(want[1])))
+            ok = (got[0] == "E") if want[0] == "E" else (tuple(got) == want)
+            if ok:
+                continue
+            ctx.violation(None, "%s engine: a helper does not follow the listed field order (outcome under PYTHONHASHSEED=%s differs from the documented loop)"
+                          % (engine, case["hashseed"]),
+                          detail={"expression": expr, "record": repr(pool[ri])[:800], "PYTHONHASHSEED": case["hashseed"], "engine": engine,
+                                  "expected": "raises" if want[0] == "E" else want[1], "result": got[1]})
+    ctx.nontrivial("hashseed", case["pool"], case["hashseed"])
+    ctx.sample({"helper expressions": len(cases), "PYTHONHASHSEED": case["hashseed"], "example": cases[0][1] if cases else None}, kind="hashseed")
+
+
+def cold_exprs():
+    out = []
+    for t in refselector._whitelist():
+        if t in CTOR_ARGS:
+            arg = CTOR_ARGS[t]
+            out += ["%s(%s) == %s" % (t, arg, arg), "r.v == %s(%s)" % (t, arg), "%s(%s) != r.s" % (t, arg)]
+        parts = t.split(".")
+        for i in range(1, len(parts)):
+            out.append("%s != None" % ".".join(parts[:i]))      # a namespace leading to a type, in value position
+    out += ["r.s in net.ipv4.Subnet('10.0.0.0/8')", "r.s in net.ipnetwork('10.0.0.0/8')", "net.tcp.Port(80) == r.v and net.udp.Port(53) != r.v"]
+    return list(dict.fromkeys(out))
+
+
+def exec_cold(ctx, case):
+    """Outcome in a cold child == outcome here (everything imported long ago); net.* additionally == the reference."""
+    from flow.record import RecordDescriptor
+    from flow.record.selector import CompiledSelector, Selector
+
+    exprs = cold_exprs()
+    res = run_child(ctx, {"mode": "cold", "order": case["order"], "exprs": exprs})
+    if res is None:
+        return
+    ctx.note("cold_child_net_modules_before_first_evaluation", res.get("net_modules_before"))
+    rec = RecordDescriptor("cold/plain", [("varint", "v"), ("string", "s")])(v=80, s="10.1.2.3")
+    engines = {"interpreted": Selector, "compiled": CompiledSelector}
+    first = case["order"][0]
+    for engine, expr, got in res["results"]:
+        ctx.ev()
+        ctx.event("cold evaluations")
+        ctx.cell("cold", engine, "first" if engine == first else "second")
+        warm, _ = run_engine(engines[engine], expr, rec)
+        same = (got[0] == "E" and warm[0] == "E") or tuple(got) == warm
+        try:
+            ref = ("V", ref_truth(ast.parse(expr, mode="eval"), rec))
+        except (Undefined, Unsupported):
+            ref = None
+        must = classify_support(expr)[0] == "must"
+        if same and not (must and ref is not None and tuple(got) != ref):
+            continue
+        ctx.violation(None, "%s engine: a whitelisted constructor / namespace evaluates differently in a process that has not imported the field type modules yet" % engine,
+                      detail={"expression": expr, "engine": engine, "cold_outcome": got, "warm_outcome": list(warm), "reference": ref,
+                              "engine_order_in_child": case["order"], "net_modules_loaded_in_child": res.get("net_modules_before")})
+    ctx.nontrivial("cold", tuple(case["order"]))
+    ctx.sample({"cold expressions": len(exprs), "order": case["order"]}, kind="cold")
+
+
+def reject_texts(seed):
+    """Texts that builtin ast.parse(text, mode='eval') rejects but that become expressions inside a simple wrapper:
+    parenthesised, in a list / call, with parentheses prefixed / suffixed, joined by newlines."""
+    rng = random.Random(subseed("c07", seed, "reject"))
+    base = ["r.n == 1", "r.s == 'Hello'", "r.m > 2", "'x' in r.l", "lower(r.s) == 'hello'", "r.n in r.nl", "has_field(r, 's')", "True", "r.b",
+            "any(x > 1 for x in r.nl)", "Type.string == 'x'", "not r.n"]
+    base += [selgen.gen_expr(rng, rng.choice([0, 1]), C07_INFO, support="must", avoid=()) for _ in range(10)]
+    texts = ["x == 99 for x in r.nl", "x for x in r.nl", "r.n == 1, r.s == 'x' for x in r.nl", "n := r.n", "(n := r.n) == 1 and\nn", "*r.l", "*r.l,\n1",
+             "**r", "yield", "yield r.n", "r.n == 1 if", "r.n ==", "== r.n", "r.n = 1", "r.n == 1;True", "r.n == 1 r.m == 2", "lambda:", "r.n == 1 else 2",
+             "for x in r.nl: x", "import os", "r.n == 1 #\n) or (True", "x=1", "r, nocase=True", "1 if r.n", "r.n if", "not", "r.", ".n", "r.n == 1 and",
+             "and r.n == 1", "r.n == 1)", "(r.n == 1", "[r.n == 1", "r.n == 1]", "r.n == 1))((", "  r.n == 1\n  and r.m == 2", "\tr.n == 1\nr.m == 2", ""]
+    for _ in range(3):
+        for a in base:
+            b = rng.choice(base)
+            texts += ["%s) or (%s" % (a, b), "%s) and (%s" % (a, b), "%s), (%s" % (a, b), "%s] + [%s" % (a, b), "%s\nand %s" % (a, b), "%s\nor\n%s" % (a, b),
+                      "%s and\n%s" % (a, b), "%s\n,%s" % (a, b), "%s\n%s" % (a, b), "%s\n == True" % a, "\n\n%s\n\nor %s" % (a, b), "%s) == (%s) or (%s" % (a, b, a),
+                      " %s\n and %s" % (a, b), "%s\n)" % a, "(\n%s" % a, "%s, *" % a, "%s for q_ in [1]" % a, "q_ for q_ in [%s]" % a, "%s if %s" % (a, b),
+                      "%s and (\n%s" % (a, b), "%s \\\n) or (%s" % (a, b)]
+    out = []
+    for t in dict.fromkeys(texts):
+        try:
+            ast.parse(t, mode="eval")
+        except (SyntaxError, ValueError):
+            if t.strip():
+                out.append(t)
+    return out
+
+
+def exec_reject(ctx, case):
+    from flow.record.selector import CompiledSelector, Selector
+
+    text = case["expr"]
+    try:
+        ast.parse(text, mode="eval")
+        ctx.event("skipped:reject-text-is-an-expression")
+        return
+    except (SyntaxError, ValueError):
+        pass
+    rec = pool_for(ctx, case["pool"])[case["rec"]]
+    ctx.ev()
+    ctx.event("reject texts")
+    ctx.nontrivial("reject", text)
+    for engine, cls in (("interpreted", Selector), ("compiled", CompiledSelector)):
+        got, exc = run_engine(cls, text, rec)
+        if got[0] == "E":
+            ctx.event("%s:not-an-expression:rejected" % engine)
+            continue
+        ctx.violation(None, "%s engine evaluated a text that is not a Python expression instead of rejecting it" % engine,
+                      detail={"text": text, "engine": engine, "result": got[1], "record": repr(rec)[:400]})
+    ctx.sample({"text": text, "expected": "rejected"}, kind="reject")
 
 
 def near_miss_names():
@@ -632,6 +863,12 @@ def execute(ctx, case):
     expr = case["expr"]
     if case["k"] == "near-miss":
         return exec_near_miss(ctx, case)
+    if case["k"] == "reject":
+        return exec_reject(ctx, case)
+    if case["k"] == "hashseed":
+        return exec_hashseed(ctx, case)
+    if case["k"] == "cold":
+        return exec_cold(ctx, case)
     if case["k"] == "grouped-seq":
         # one long-lived selector object per engine sees the groups one after the other, next to fresh objects
         groups = grouped_for(ctx, case["pool"])
@@ -736,6 +973,7 @@ def finish(ctx):
         ctx.require(have >= need, "must-support kind %s has only %d defined cases in shard %d (need %d)" % (k, have, ctx.shard, need))
     ctx.require(ctx.events.get("oracle_selfcheck_agree", 0) > 0, "the oracle self-check against builtin eval never ran")
     ctx.require(ctx.events.get("defined:may-reject", 0) > 0, "no defined may-reject case")
+    ctx.require(ctx.events.get("reject texts", 0) > 0, "no non-expression text was tried in shard %d" % ctx.shard)
     ctx.require(ctx.events.get("near-miss expressions", 0) > 0, "no near-miss identifier was tried in shard %d" % ctx.shard)
     ctx.require(ctx.events.get("defined:grouped-sequence", 0) > 0, "no defined typed-matcher case on a sequence of grouped records")
     for k in range(4):
